@@ -261,7 +261,8 @@ def verifyFrom (O : Query → m Bytes) (cp : CurveParams) (p : Proof) (q : Bytes
   | k+1, i => do
       match ← verifySlot O cp p q key n L ch i with
       | .ok () => verifyFrom O cp p q key n L ch k (i+1)
-      | e => pure e
+      | .err e => pure (.err e)
+      | .panic w => pure (.panic w)
 
 /-- `verify(&self, q_point, pk, label)`; `q` is the canonical encoding of the point -/
 def verify (O : Query → m Bytes) (cp : CurveParams) (p : Proof) (q : Bytes) (key : Bytes) (n : Nat) (label : Bytes) :
@@ -275,7 +276,8 @@ def verify (O : Query → m Bytes) (cp : CurveParams) (p : Proof) (q : Bytes) (k
 def decryptValue (O : Query → m Bytes) (cp : CurveParams) (key : Bytes) (n L : Nat) (ct : Bytes) : m (Option Nat) := do
   match ← rsaDecryptWithLabel O key n L ct with
   | .ok b => pure (decodeScalar cp (padLeft cp.scalarLen b))
-  | _ => pure none
+  | .err _ => pure none
+  | .panic _ => pure none
 
 /-- the loop of `decrypt` -/
 def decryptSlots (O : Query → m Bytes) (cp : CurveParams) (q : Bytes) (key : Bytes) (n L : Nat) :
@@ -322,7 +324,8 @@ def readSlots (gsz esz : Nat) : Nat → Bytes → Res (List Slot × Bytes)
       let slot : Slot := { gR := d.take gsz, encXR := (d.drop gsz).take esz, encR := (d.drop (gsz + esz)).take esz }
       match readSlots gsz esz k (d.drop (gsz + 2 * esz)) with
       | .ok (rest, d') => .ok (slot :: rest, d')
-      | e => e
+      | .err e => .err e
+      | .panic w => .panic w
 
 /-- read `k` scalars from the front of `d` -/
 def readScalars (cp : CurveParams) : Nat → Bytes → Res (List Nat)
@@ -334,7 +337,8 @@ def readScalars (cp : CurveParams) : Nat → Bytes → Res (List Nat)
       | some s =>
         match readScalars cp k (d.drop cp.scalarLen) with
         | .ok rest => .ok (s :: rest)
-        | e => e
+        | .err e => .err e
+        | .panic w => .panic w
 
 /-- `from_bytes(data)` (with the repair of D7: `security_param > 256` is refused) -/
 def fromBytes (cp : CurveParams) (data : Bytes) : Res Proof :=
